@@ -273,9 +273,18 @@ fn class_merger_merge(client: ClassFile, server: ClassFile) -> Result<ClassFile>
 
 		nest_host_class: client.nest_host_class,
 		nest_members: client.nest_members,
-		permitted_subclasses: None, // TODO: deal with this here
+		// a subclass that either side permits stays permitted (union, merged like the interfaces)
+		permitted_subclasses: match (client.permitted_subclasses, server.permitted_subclasses) {
+			(None, None) => None,
+			(client, server) => Some(
+				merge_preserve_order(&client.unwrap_or_default(), &server.unwrap_or_default())
+					.cloned()
+					.collect()
+			),
+		},
 
-		record_components: vec![], // TODO: deal with this here
+		// like the other class attributes both sides have: the client's
+		record_components: client.record_components,
 
 		attributes: client.attributes,
 	})
